@@ -48,6 +48,10 @@ def rand_exons(rng, lo: int, hi: int, count: int, min_exon: int = 1):
     parts = [(cuts[2 * i], cuts[2 * i + 1]) for i in range(count)]
     if any(e - s < min_exon for s, e in parts):
         return None
+    # exons that touch (an intron of length 0, as frameshift annotations produce)
+    if count > 1 and rng.random() < 0.25:
+        i = rng.randrange(count - 1)
+        parts[i + 1] = (parts[i][1], parts[i + 1][1])
     return parts
 
 
